@@ -104,6 +104,8 @@ def impl_eval(case):
                 open(p, 'w', encoding='utf-8', newline='').write(text)
                 csv_enc = {} if case.get('defaultenc') else {'in_encoding': 'utf-8'}
                 csv_out = {} if case.get('defaultenc') else {'out_encoding': 'utf-8'}
+                ipm_enc_w = {} if case.get('noipmenc') else {'out_encoding': codec}
+                ipm_enc_r = {} if case.get('noipmenc') else {'in_encoding': codec}
                 if case.get('defaultenc'):       # no --in-encoding / --out-encoding: the platform's text encoding both ways
                     open(p, 'w', newline='').write(text)
                 extra = {}
@@ -128,9 +130,9 @@ def impl_eval(case):
                         os.environ['CARDUTIL_CONFIG'] = os.path.join(d, 'site')
                 try:
                     with contextlib.redirect_stdout(io.StringIO()):
-                        mci_csv_to_ipm.cli_run(in_filename=p, out_filename=p + '.ipm', out_encoding=codec,
+                        mci_csv_to_ipm.cli_run(in_filename=p, out_filename=p + '.ipm', **ipm_enc_w,
                                                no1014blocking=not blocked, **csv_enc, **extra)
-                        mci_ipm_to_csv.cli_run(in_filename=p + '.ipm', out_filename=p + '.out.csv', in_encoding=codec,
+                        mci_ipm_to_csv.cli_run(in_filename=p + '.ipm', out_filename=p + '.out.csv', **ipm_enc_r,
                                                no1014blocking=not blocked, **csv_out, **extra)
                 finally:
                     if case.get('cfgfile') == 'env':
@@ -239,6 +241,13 @@ def explore(run, tier):
             rows = [{'MTI': '1240', 'DE2': '5' * 16, 'PDS0023': v} for v in ('CAFÉ', 'Ölß Ü', 'naïve señor', 'plain')]
             cases.append({'rows': rows, 'cols': ['MTI', 'DE2', 'PDS0023'], 'codec': codec, 'b': b, 'cli': True,
                           'defaultenc': True})
+    # the commands with the CSV text encoding given (utf-8) and NO encoding for the IPM side: the IPM file is written and
+    # read in the documented default (latin-1), whatever the CSV's encoding is
+    for b in (0, 1):
+        rows = [{'MTI': '1240', 'DE2': '5' * 16, 'DE42': 'CAF\xc9 M\xdcNCHEN 01', 'DE38': 'AB\xa3 5 '},
+                {'MTI': '1240', 'DE2': '4' * 16, 'DE42': 'Stra\xdfe \xa35      ', 'DE38': 'plain '}]
+        cases.append({'rows': rows, 'cols': ['MTI', 'DE2', 'DE38', 'DE42'], 'codec': 'latin_1', 'b': b, 'cli': True,
+                      'noipmenc': True})
     # tables that have PDS columns AND a carrier column: each row uses one or the other (what a row supplies is decided
     # row by row, not from the header)
     if 'PDS0158' in cols and 'DE48' in cols:
